@@ -748,7 +748,8 @@ impl<'a, BF: PrimeField64, EF: ExtensionField<BF>> Gen<'a, BF, EF> {
             87..=90 if self.cfg.hints => {
                 // decompose a small base value into bits
                 let n = self.rng.range(1, 10);
-                let x = self.rng.below(1u64 << n);
+                // one time in four the value zero (every limb of it is zero)
+                let x = if self.rng.chance(1, 4) { 0 } else { self.rng.below(1u64 << n) };
                 let xv = EF::from(BF::from_u64(x));
                 let xi = if self.rng.chance(1, 2) {
                     self.fresh_input_eq(xv)
@@ -760,8 +761,17 @@ impl<'a, BF: PrimeField64, EF: ExtensionField<BF>> Gen<'a, BF, EF> {
                     self.op2(0, i, ci)
                 };
                 self.calls.push(Call::DecomposeBits(xi, n));
+                let first_bit = self.arena.len();
                 for j in 0..n {
                     self.push_val(EF::from_bool((x >> j) & 1 == 1), 4);
+                }
+                // one time in three a bit is tied to an input of its own (a claimed bit: the slot is
+                // already set when the hint runs, so the hint has to compare instead of write)
+                if self.rng.chance(1, 3) {
+                    let j = self.rng.usize_below(n as usize);
+                    let bv = self.v(first_bit + j);
+                    let claimed = self.fresh_input_eq(bv);
+                    self.calls.push(Call::Connect(first_bit + j, claimed));
                 }
             }
             91..=92 => {
